@@ -39,6 +39,30 @@ pub proof fn lemma_index_members_from_coherence<T: Eq + PartialOrd + Send + Sync
     }
 }
 
+// [C10.wsteps.symmetric_on_directed_graphs] with coherent adjacency maps a weak step (successor or predecessor name) can be taken back
+pub proof fn lemma_wsteps_symmetric<T: Eq + PartialOrd + Send + Sync, A: Clone>(g: Graph<T, A>)
+    requires
+        g.wf_nodes(), g.wf_estore(), g.wf_index_sets(), g.wf_name_sets(), g.specs.directed,
+    ensures
+        wsteps_symmetric(g),
+{
+    assert forall|a: T, x: T| #[trigger] wsteps(g, a, x) implies wsteps(g, x, a) by {
+        if g.succ_names(a).contains(x) {
+            assert(g.knows(a) && g.knows(x) && g.succ_set(g.pos(a)).contains(g.pos(x)));
+            assert(g.linked(g.pos(a), g.pos(x)));
+            assert(g.has_pair(g.pos(a), g.pos(x)));
+            assert(g.pred_set(g.pos(x)).contains(g.pos(a)));
+            assert(g.pred_names(x).contains(a));
+        } else {
+            assert(g.knows(a) && g.knows(x) && g.pred_set(g.pos(a)).contains(g.pos(x)));
+            assert(g.has_pair(g.pos(x), g.pos(a)));
+            assert(g.linked(g.pos(x), g.pos(a)));
+            assert(g.succ_set(g.pos(x)).contains(g.pos(a)));
+            assert(g.succ_names(x).contains(a));
+        }
+    }
+}
+
 // [C02.coherence.index_sets_preserved_by_add_edge]
 pub proof fn lemma_index_sets_preserved_by_add_edge<T: Eq + PartialOrd + Send + Sync, A: Clone>(pre: Graph<T, A>, e: Edge<T, A>, post: Graph<T, A>, r: Result<(), Error>)
     requires
